@@ -60,3 +60,18 @@ reg("C05",
     level_note="Trusted: numpy/xarray label alignment in vf/compare.py; tolerances 1e-9 (float64) / 2e-5 (float32), directions on the circle. Discrete decisions that are exact or near ties (equal peaks, equal directional maxima) are inconclusive; watershed methods are exempt from the orientation reversal as the statement says.",
     rule="case = (operation x transformation x dtype x nd x leading dims x spectrum class); distinct = distinct keys; non-trivial = both executions returned and no discrete tie",
     must_observe=["hs", "smooth", "ptm1", "ptm3", "interp", "rotate", "dm", "tp"])
+
+reg("C06",
+    technique="runtime differential monitor: batched result at each position vs the same call on the extracted spectrum; perturbation monitor (replace one spectrum, all other positions bit-identical); Dataset-accessor vs efth-accessor identity",
+    level_text="For datasets with 0-3 leading dimensions (time, site, lat, lon, part; any order, spectral dims not necessarily last) whose neighbouring spectra are deliberately very different, the real accessor result at sampled positions is compared with the result of the same call on that single spectrum with its own wind/depth; one spectrum (and its wind/depth) is then replaced and every other position must be bit-identical; the Dataset accessor must return an identical object. Held = on the executions observed.",
+    level_note="Trusted: xarray isel/loc for extracting/replacing positions; tolerances 1e-12 (float64) / 2e-6 (float32) for reductions, bit equality for the perturbation monitor. hmax is excluded as the statement says. Discrete ties and cancellation-prone widths are inconclusive.",
+    rule="case = (operation x dtype x set of leading dims x spectral-dims-last or mixed) for each of the three monitors; distinct = distinct keys; non-trivial = dataset has >= 1 leading dim with differing spectra (positions compared: up to 12 per op)",
+    must_observe=["single_vs_batched", "perturbation", "dataset_accessor"])
+
+reg("C07", asan=True, crash_is_violation=True,
+    technique="runtime differential monitor (chunked + scheduled vs in-memory) and sanitizer stress: threaded dask schedulers driving the ASan/UBSan watershed on mixed and equal grid shapes, with a per-thread native-call trace as interleaving evidence",
+    level_text="Each sampled operation is computed on x and on x.chunk(c) under a synchronous or threaded scheduler (1-16 workers) and must succeed and equal the in-memory result; chunkings include one element per chunk on every dimension and splits of freq and dir. A stress workload runs watershed partitions of several datasets (different, transposed and equal grid shapes, so the routine's static buffers are re-allocated between threads) in one thread pool on the AddressSanitizer build, five repetitions each, with the switch interval lowered to 10 us; results must equal the serial ones and the worker must not die or report. Held = over the schedules these runs produced (thread switches between native calls are counted in the evidence), not over all schedules.",
+    level_note="ThreadSanitizer cannot be loaded into this interpreter (DESIGN.md par.1), so absence of a data race is not claimed: the oracle is result equality + ASan/UBSan silence on the interleavings observed. The C entry point holds the GIL; a GIL release that never interleaves in a run would be missed (validated with a GIL-release mutant).",
+    rule="case = (operation x chunking kind x dtype x scheduler x workers x leading dims) and (stress: shape mix x workers x datasets, 5 repetitions); distinct = distinct keys; non-trivial = data actually dask-backed and compared",
+    must_observe=["hs", "tp", "ptm1", "ptm3", "interp", "smooth", "stress"],
+    must_note=["thread_switches_between_native_calls"])
